@@ -389,13 +389,13 @@ def pub_property(ctx, pid, prop_file, model_files, judge, family_filter=None, ru
     nbad = 0
     for name in judge["monitors"]:
         for (i, fields) in res["defs"].get(name, []):
-            if i not in selset:
+            if i not in selset and name != "history_bad":
                 continue
-            sig, text = judge["classify"](name, fields, runs[i])
+            sig, text = judge["classify"](name, fields, runs[i] if i < len(runs) and name != "history_bad" else {"family": "seq", "faults": None})
             if sig is None:
                 continue
             nbad += 1
-            if ctx.violation(sig, text, {"kind": "run", "index": i, "run": runs[i], "monitor": name, "detail": fields}):
+            if ctx.violation(sig, text, {"kind": "run", "index": i, "run": runs[i] if name != "history_bad" else {"history_index": i, "see": "histories in observed.v of the run directory", "runs_of_family_seq": [r for r in runs if r["family"].startswith("seq:")][:40]}, "monitor": name, "detail": fields}):
                 found = True
     ctx.coverage["distinct_nontrivial"] = len(set(json.dumps([runs[i]["family"], runs[i]["faults"], runs[i]["result"], runs[i]["events"]]) for i in sel if runs[i]["events"] > 3))
     # correspondence: replay disagreements of a class that concerns this property
@@ -497,6 +497,25 @@ def check_C02(ctx):
 
 def replay_C02(ctx):
     return check_C02(ctx)
+
+
+def check_C05(ctx):
+    def classify(name, fields, run):
+        if name == "history_bad":
+            return ("C05:history", "after a sequence of posts %s" % fields[1])
+        return ("C05:%s:%s" % (run["family"].split(":")[0], fields[1][:48]), "%s (faults %s): %s" % (run["family"], run["faults"], fields[1]))
+    n = "30" if ctx.tier == "quick" else "400"
+    return pub_property(ctx, "C05", "Properties/C05.v",
+                        ["Pub/BaseActor.v deliver_outbox / post_outbox_http / send, Pub/Soc.v soc_callbacks / post_outbox, Pub/SideEffect.v add_to_outbox / add_new_ids / deliver, Pub/Monitors.v ord_step",
+                         "modelled, not verified: the application's Database is assumed to return from GetOutbox what SetOutbox last stored (the history theorem's premise); Go map iteration order in the Social Create normalisation is a permutation parameter"],
+                        {"monitors": ["order_bad", "create_bad", "history_bad"], "classify": classify,
+                         "rule": "every standard outbox / Send scenario with every single fault, plus sequences of 1..8 posts to two outboxes against one evolving world (some posts rejected, some failing at a random call); judged by the ordering monitor, the fresh-id check and the listing theorem's equation"},
+                        family_filter=lambda f: f.startswith(("outbox:", "send:", "seq:", "deliver:")),
+                        run_specs=[("seq", ["-families", "seq", "-n", n, "-faults", "none", "-maxruns", "6000"]), ("std", PUB_STD[ctx.tier])])
+
+
+def replay_C05(ctx):
+    return check_C05(ctx)
 
 
 def check_C03(ctx):
